@@ -511,6 +511,21 @@ def body_relocator(case, ctx):
     # a second call returns the same answer (cached sub-border indices)
     again = s.relocator.relocated_grid_from(grid=aa.Grid2DIrregular(values=s.src.copy()))
     ctx.equal(np.asarray(again), np.asarray(got), "relocator/grid/repeat", "second relocated_grid_from call")
+    # the same relocator then serves a different source-plane grid (one relocator per dataset serves every model):
+    # mesh and data relocation must use the border of the grid they are given, not of an earlier one
+    # (added after the independently seeded change C18b)
+    c0 = s.src.mean(axis=0)
+    span = np.maximum(s.src.max(axis=0) - s.src.min(axis=0), 1e-3)
+    src2 = c0 + 1.75 * (s.src - c0) + np.array([0.375, -0.25]) * span
+    verts2 = c0 + 1.75 * (s.verts - c0) + np.array([0.375, -0.25]) * span
+    border2 = src2[s.bidx]
+    grid2 = aa.Grid2DIrregular(values=src2.copy())
+    gotm2 = s.relocator.relocated_mesh_grid_from(grid=grid2, mesh_grid=aa.Grid2DIrregular(values=verts2.copy()))
+    check_relocation(ctx, "relocator/reuse/mesh", np.asarray(gotm2), verts2, border2, border_rows=s.vertex_border_rows)
+    got2 = s.relocator.relocated_grid_from(grid=grid2)
+    check_relocation(ctx, "relocator/reuse/grid", np.asarray(got2), src2, border2, border_rows=[int(b) for b in s.bidx])
+    gotm3 = s.relocator.relocated_mesh_grid_from(grid=grid, mesh_grid=mesh_in)
+    check_relocation(ctx, "relocator/reuse/mesh-back", np.asarray(gotm3), s.verts, border, border_rows=s.vertex_border_rows)
 
 
 def body_mesh(case, ctx):
